@@ -70,9 +70,12 @@ def set_pre(P: Program, ts, pre, dtype):
             ts[k].grad = torch.tensor([float(x) for x in v], dtype=dtype).reshape(P.nodes[k].shape)
 
 
-def real_backward(P: Program, dtype, tensors, inputs, agg, chunk, retain, pre, report, ts=None):
+def real_backward(P: Program, dtype, tensors, inputs, agg, chunk, retain, pre, report, ts=None, freeze=()):
+    """freeze: leaves switched to requires_grad=False AFTER the forward pass (they are still in the graph)"""
     ts = ts if ts is not None else P.build(dtype)
     set_pre(P, ts, pre, dtype)
+    for i in freeze:
+        ts[i].requires_grad_(False)
     err = None
     try:
         backward([ts[i] for i in tensors], make_agg(agg, dtype),
@@ -84,11 +87,13 @@ def real_backward(P: Program, dtype, tensors, inputs, agg, chunk, retain, pre, r
 
 
 def real_mtl(P: Program, dtype, losses, features, tasks, shared, agg, chunk, retain, pre, report, ts=None,
-             as_generators=False):
+             as_generators=False, freeze=()):
     """as_generators: pass the parameter collections as one-shot iterables (like `module.parameters()`),
     which the signature `Iterable[Tensor]` allows"""
     ts = ts if ts is not None else P.build(dtype)
     set_pre(P, ts, pre, dtype)
+    for i in freeze:
+        ts[i].requires_grad_(False)
     err = None
     wrap = (lambda xs: (x for x in xs)) if as_generators else (lambda xs: xs)
     try:
